@@ -19,5 +19,5 @@ Step ==
 Accept == v = "run" /\ l = Len(Traces[k].events) + 1 /\ Finish("ACCEPT", "", ToString(Cardinality(compiled)))
 TraceNext == Step \/ Accept
 TraceSpec == TInit /\ [][TraceNext]_tvars
-Inv == OnlyLazyKernels /\ CompiledIffUsed
+Inv == OnlyLazyKernels
 =============================================================================
